@@ -837,13 +837,13 @@ fn map_sweep<K: El, V: El, const N: usize>(name: &str, fam: &str, seed: u64) -> 
                     }
                     c.remove(a);
                     big.remove(a);
-                    if c == m || m == c || big == m || m == big {
-                        bail!("{name}: maps of different lengths compare equal");
+                    if c == m || m == c || big == m || m == big || !(c != m) || !(m != big) {
+                        bail!("{name}: maps of different lengths compare equal (== or !=)");
                     }
                     if K::CLASSES as usize > N + 3 && N > 0 {
                         c.insert(K::make(N as u32 + 3, 0), r.v[0].1.clone());
-                        if c == m || m == c {
-                            bail!("{name}: maps with one differing key compare equal");
+                        if c == m || m == c || !(c != m) || !(m != c) {
+                            bail!("{name}: maps with one differing key compare equal (== or !=)");
                         }
                     }
                 }
@@ -1110,18 +1110,18 @@ fn set_sweep<K: El, const N: usize>(name: &str, fam: &str, seed: u64) -> Result<
                 for x in r.iter().rev() {
                     big.insert(x.clone());
                 }
-                if c != s || !(big == s) || !(s == big) {
+                if c != s || !(big == s) || !(s == big) || big != s || s != big {
                     bail!("{name}: a clone / a set of another capacity with the same elements does not compare equal");
                 }
                 if let Some(x) = r.first() {
                     big.remove(x);
-                    if big == s || s == big {
-                        bail!("{name}: sets of different lengths compare equal");
+                    if big == s || s == big || !(big != s) || !(s != big) {
+                        bail!("{name}: sets of different lengths compare equal (== or !=)");
                     }
                     if K::CLASSES as usize > N + 3 {
                         big.insert(K::make(N as u32 + 3, 0));
-                        if big == s || s == big {
-                            bail!("{name}: sets with one differing element compare equal");
+                        if big == s || s == big || !(big != s) || !(s != big) {
+                            bail!("{name}: sets with one differing element compare equal (== or !=)");
                         }
                     }
                 }
